@@ -206,6 +206,36 @@ func StdOutcome(v *Verdict, out *simrt.Outcome) {
 	}
 }
 
+// BlockedTasks reports a violation when a run ended with tasks that can never go on, other than a reader goroutine
+// of the library waiting in Read for more bytes (which is where it belongs while the connection is open).
+func BlockedTasks(v *Verdict, out *simrt.Outcome, what string) {
+	if out == nil || out.Budget || v.Class != "" {
+		return
+	}
+	for _, pk := range out.Parked {
+		if pk.Op == "read" && strings.HasPrefix(pk.Task, "go@") {
+			continue
+		}
+		v.Violate("blocked", "blocked "+ParkSig(out, Sites), "%s: tasks still blocked when nothing more can happen: %v", what, out.Parked)
+		return
+	}
+}
+
+// ClientBlocked is BlockedTasks for the tasks of the harness only (the calls a user makes): goroutines the library
+// started are not looked at.
+func ClientBlocked(v *Verdict, out *simrt.Outcome, what string) {
+	if out == nil || out.Budget || v.Class != "" {
+		return
+	}
+	for _, pk := range out.Parked {
+		if strings.HasPrefix(pk.Task, "go@") {
+			continue
+		}
+		v.Violate("blocked", "blocked "+ParkSig(out, Sites), "%s: a call of the client never returned: %v", what, out.Parked)
+		return
+	}
+}
+
 // ParkSig renders the parked tasks of a deadlock as a structural signature.
 func ParkSig(out *simrt.Outcome, sites map[int]SiteInfo) string {
 	var parts []string
